@@ -163,6 +163,11 @@ class Type3Tag(nfc.tag.Tag):
                 self._attribute_read_error = error
                 return None
 
+            if data is None:
+                # a read with integrity check that could not be verified
+                log.debug("ndef attribute data failed the integrity check")
+                return None
+
             if sum(data[0:14]) != unpack(">H", data[14:16])[0]:
                 log.debug("ndef attribute data checksum error")
                 return None
@@ -223,9 +228,14 @@ class Type3Tag(nfc.tag.Tag):
                 last_block = min(i + nbr, last_block_number)
                 block_list = range(i, last_block)
                 try:
-                    data += self.tag.read_from_ndef_service(*block_list)
+                    blocks = self.tag.read_from_ndef_service(*block_list)
                 except Type3TagCommandError:
                     return None
+                if blocks is None:
+                    # a read with integrity check that could not be verified
+                    log.debug("ndef data failed the integrity check")
+                    return None
+                data += blocks
 
             data = data[0:attributes['ln']]
             log.debug("got {0} byte ndef data {1}{2}".format(
